@@ -329,24 +329,49 @@ def _rest(rep, M, CM, file):
     pg = Engine(M, keep_props={"current_delay_sec"}).run(gb)
     CUR = ("prop", SF, "current_delay_sec", 0)
     flag_f = sleep_f = None
-    bool_fields = [a for a, v in CM.field_inits.items() if isinstance(v, ast.Constant) and v.value is False]
-    # role binding: flag = bool field read here; sleep = int field read here (other than threshold)
-    rd = set()
+    # role binding: flag = the field (of the manager or of a record it owns) read here that starts as False; sleep = the other field read here
+    # (not the strategy).  Fields are identified by their access chain from the manager, so a private state record works like direct fields.
+    chains = set()
+
+    def rooted(sv):
+        return sv == SELF or (isinstance(sv, tuple) and sv and sv[0] == "f0" and rooted(sv[1]))
 
     def leaves2(sv):
         if isinstance(sv, tuple):
-            if sv[0] == "f0" and sv[1] == SELF:
-                rd.add(sv[2])
+            s0 = strip_epoch(sv) if sv and sv[0] == "f0" else sv
+            if s0 and s0[0] == "f0" and rooted(s0):
+                chains.add(s0[:3])
+                return
             for x in sv:
                 leaves2(x)
     for p in pg:
         leaves2(p.ret)
         for g, _, _ in p.guards:
             leaves2(g)
-    flags = [a for a in rd if a in bool_fields]
-    ints = [a for a in rd if a not in bool_fields and a != strat_field]
-    rep.require(len(flags) == 1 and len(ints) == 1, f"cannot bind breaker flag / sleep fields in {gb.name}: {sorted(rd)}")
-    FL, SL = ("f0", SELF, flags[0]), ("f0", SELF, ints[0])
+
+    def chain_class(sv):
+        if sv == SELF:
+            return (MOD, "ConnectionManager")
+        ck_ = chain_class(sv[1])
+        return M.field_type(ck_, sv[2]) if ck_ else None
+
+    def chain_init(sv):
+        ck_ = chain_class(sv[1])
+        if ck_ is None or ck_ not in M.classes:
+            return None
+        c_ = M.classes[ck_]
+        if sv[2] in c_.field_inits:
+            return c_.field_inits[sv[2]]
+        for s_ in c_.node.body:  # record default
+            if isinstance(s_, ast.AnnAssign) and isinstance(s_.target, ast.Name) and s_.target.id == sv[2]:
+                return s_.value
+        return None
+    chains = {c_ for c_ in chains if not (c_[1] == SELF and c_[2] == strat_field) and not any(o_ != c_ and o_[1] == c_ for o_ in chains)}
+    flag_ch = [c_ for c_ in chains if isinstance(chain_init(c_), ast.Constant) and chain_init(c_).value is False]
+    int_ch = [c_ for c_ in chains if c_ not in flag_ch]
+    rep.require(len(flag_ch) == 1 and len(int_ch) == 1, f"cannot bind breaker flag / sleep fields in {gb.name}: {sorted(show_sv(c_) for c_ in chains)}")
+    FL, SL = flag_ch[0], int_ch[0]
+    flags, ints = [FL[2]], [SL[2]]
     badv = None
     n_cells = 0
     for delay in (0, 1, 2, 5, 8, 60):
@@ -377,19 +402,20 @@ def _rest(rep, M, CM, file):
             ub = f
     rep.require(ub is not None, "cannot find the function updating the breaker flag")
     pu = Engine(M).run(ub)
-    last_fields = {e[2] for p in pu for e in p.effects if e[0] == "write" and e[2] != flags[0]}
-    rep.require(len(last_fields) == 1, f"breaker update writes unexpected fields {sorted(last_fields)}")
-    LAST = last_fields.pop()
+    last_fields = {(strip_epoch(e[1]) if isinstance(e[1], tuple) and e[1] and e[1][0] == "f0" else e[1], e[2]) for p in pu for e in p.effects if e[0] == "write" and e[2] != flags[0]}
+    rep.require(len(last_fields) == 1, f"breaker update writes unexpected fields {sorted(x[1] for x in last_fields)}")
+    LAST_RECV, LAST = last_fields.pop()
+    LASTSV = ("f0", LAST_RECV, LAST)
     okb = True
     for p in pu:
         ws = {e[2]: e[3] for e in p.effects if e[0] == "write"}
-        has_last = any((g == ("f0", SELF, LAST)) and pol for g, pol, _ in p.guards) or any(g[0] == "cmp" and g[1] == "Is" and g[2] == ("f0", SELF, LAST) and not pol for g, pol, _ in p.guards)
+        has_last = any((strip_epoch(g) == LASTSV) and pol for g, pol, _ in p.guards) or any(g[0] == "cmp" and g[1] == "Is" and strip_epoch(g[2]) == LASTSV and not pol for g, pol, _ in p.guards)
         if LAST not in ws or not (ws[LAST][0] == "call" and "now" in str(ws[LAST][1])):
             okb = False
             rep.violation("R4", f"{MOD}.ConnectionManager.{ub.name}", "last-loss-time", "the time of the last loss is not updated on every loss", file, ub.node.lineno)
         if has_last:
             v = ws.get(flags[0])
-            good = v is not None and v[0] == "cmp" and v[1] == "Lt" and "total_seconds" in str(v[2]) and ("f0", SELF, LAST) in _flatten(v[2]) \
+            good = v is not None and v[0] == "cmp" and v[1] == "Lt" and "total_seconds" in str(v[2]) and LASTSV in {strip_epoch(x) if x and x[0] == "f0" else x for x in _flatten(v[2])} \
                 and v[3][0] == "f0" and "threshold" in v[3][2]
             if not good:
                 okb = False
@@ -400,7 +426,7 @@ def _rest(rep, M, CM, file):
         if f is ub or name == "__init__":
             continue
         for n in ast.walk(f.node):
-            if isinstance(n, ast.Attribute) and isinstance(n.ctx, (ast.Store, ast.Del)) and isinstance(n.value, ast.Name) and n.value.id == "self" and n.attr in (LAST, flags[0]):
+            if isinstance(n, ast.Attribute) and isinstance(n.ctx, (ast.Store, ast.Del)) and n.attr in (LAST, flags[0]):
                 okb = False
                 rep.violation("R4", f"{MOD}.ConnectionManager.{name}", "breaker-state-writer", f"`{n.attr}` (loss-breaker state) is modified outside the loss update: two losses within the threshold "
                               "no longer reliably arm the breaker", file, n.lineno)
@@ -417,7 +443,7 @@ def _rest(rep, M, CM, file):
     okc = bool(ips)
     n_upd = 0
     for p in ips:
-        upd = any(e[0] == "write" and e[1] == SELF and e[2] == LAST for e in p.effects)
+        upd = any(e[0] == "write" and e[2] == LAST and (strip_epoch(e[1]) if isinstance(e[1], tuple) and e[1] and e[1][0] == "f0" else e[1]) == LAST_RECV for e in p.effects)
         tests = [(g, pol) for g, pol, _ in p.guards if g[0] == "call" and g[1] == ".is_set" and strip_epoch(g[2][0]) == ("f0", SELF, closing[0])]
         waited = [e for e in p.effects if e[0] == "await" and "done" in str(e[1])]
         later = [(g, pol) for g, pol in tests if waited and (g[2][0][3] if len(g[2][0]) > 3 else 0) > waited[-1][3]]
